@@ -114,6 +114,7 @@ pub fn w<R>(f: impl FnOnce(&mut World) -> R) -> R {
 }
 
 pub fn reset_world() {
+  set_deadlock_ctx("");
   hooks_disable();
   crate::cat::reset_handles();
   crate::h_subject::reset();
@@ -425,6 +426,11 @@ pub fn init_process() {
 
 thread_local! {
   pub static PANICS: RefCell<Vec<String>> = RefCell::new(vec![]);
+  /// suffix a harness may give to the deadlock key (which composition, which extra operation)
+  pub static DEADLOCK_CTX: RefCell<String> = RefCell::new(String::new());
+}
+pub fn set_deadlock_ctx(s: &str) {
+  DEADLOCK_CTX.with(|c| *c.borrow_mut() = s.to_string());
 }
 pub fn take_panics() -> Vec<String> {
   PANICS.with(|p| p.try_borrow_mut().map(|mut p| std::mem::take(&mut *p)).unwrap_or_default())
@@ -758,7 +764,7 @@ fn lock_hook(ev: LockEvent, raw: usize) {
       });
       match r {
         R::SelfDeadlock(id) => e::fail("would-block/lock-reacquired", || format!("lock #{} acquired again by the logical thread that holds it (std::sync::Mutex would block forever)", id)),
-        R::Deadlock(a, b) => e::fail("deadlock/lock-cycle", || format!("thread waits for lock #{} held by a thread that waits for lock #{} held by the first", a, b)),
+        R::Deadlock(a, b) => e::fail(&format!("deadlock/lock-cycle{}", DEADLOCK_CTX.with(|c| c.borrow().clone())), || format!("thread waits for lock #{} held by a thread that waits for lock #{} held by the first", a, b)),
         R::Blocked => {
           e::cover("thread-blocked-path-pruned");
           e::prune()
